@@ -1,0 +1,34 @@
+//go:build verif
+
+// Contracts for the deductive verifier under /verif (govc); compiled only with the build tag "verif".
+
+package tcpassembly
+
+// sdiff32(s,t): the signed distance from s to t in the 32-bit sequence space (true modular distance).
+//@ spec sdiff32(s int, t int) int = (t - s) % 4294967296 >= 2147483648 ? (t - s) % 4294967296 - 4294967296 : (t - s) % 4294967296
+//@ pred isSeq(s int) = 0 <= s && s < 4294967296
+
+//@ func (s Sequence) Difference(t Sequence) int
+//@   props C10
+//@   requires isSeq(s) && isSeq(t)
+//@   ensures -1073741824 < sdiff32(s, t) && sdiff32(s, t) < 1073741824 ==> result == sdiff32(s, t)
+//@   modifies nothing
+
+//@ func (s Sequence) Add(t int) Sequence
+//@   props C10
+//@   requires isSeq(s) && -4611686018427387904 < t && t < 4611686018427387904
+//@   ensures isSeq(result) && result == (s + t) % 4294967296
+//@   modifies nothing
+
+// Consequences used by the assembler, proved from the two contracts above.
+//@ func verifLemmaSeq(s Sequence, t Sequence, n int) (antisym bool, zero bool, shift bool)
+//@   props C10
+//@   requires isSeq(s) && isSeq(t) && 0 <= n && n < 536870912
+//@   requires -536870912 < sdiff32(s, t) && sdiff32(s, t) < 536870912
+//@   ensures antisym && zero && shift
+func verifLemmaSeq(s, t Sequence, n int) (antisym, zero, shift bool) {
+	antisym = s.Difference(t) == -t.Difference(s)
+	zero = (s.Difference(t) == 0) == (s == t)
+	shift = s.Difference(t.Add(n)) == s.Difference(t)+n
+	return
+}
